@@ -105,6 +105,10 @@ class ProgGen:
             # identifiers that merely START like a keyword, a builtin or a DSL name (never equal to one: the counter follows)
             self.feat("keywordish-identifier")
             return f"{self.r.choice(NAME_STEMS)}{prefix}{self.counter}"
+        if prefix != "fn" and self.r.random() < 0.08:
+            # ALL-CAPITALS names are ordinary variables too (no "constant" treatment)
+            self.feat("uppercase-identifier")
+            return f"{self.r.choice(['PHASE', 'MODE', 'LIMIT', 'N'])}{prefix.upper()}{self.counter}"
         return f"{prefix}{self.counter}"
 
     def visible(self, type_=None, pred=None):
@@ -499,7 +503,9 @@ class ProgGen:
         if depth < 3 and not (self.in_main_loop and depth > 1):
             choices += ["reset_same_const"]
         if depth < 2:
-            choices += ["single_pass_for"]
+            choices += ["single_pass_for", "twin_ifs"]
+        if [f for f in self.funcs if f.ret == "int" and not f.pure] and not self.in_function:
+            choices += ["empty_arms_call"]
         if self.use_led and self.leds and getattr(self, "led_helpers", None) and not self.in_function:
             choices += ["led_around_call"] * 2
         if depth < 3 and not self.in_main_loop:
@@ -856,6 +862,42 @@ class ProgGen:
         self.observe(v)
         self.emit(f"{name} = {k}")
         self.observe(v)
+
+    def s_twin_ifs(self, depth):
+        """Two adjacent ifs with the very same condition; the first changes the tested name only inside a nested block: the
+        second test is a fresh test."""
+        vs = [v for v in self.visible("int") if not v.ro]
+        if not vs:
+            return self.s_observe(depth)
+        v = self.r.choice(vs)
+        k = self.r.randint(-3, 6)
+        self.feat("adjacent-ifs-same-condition")
+        self.emit(f"if {v.name} > {k}:")
+        self.ind += 1
+        inner = self.r.choice([f"if {v.name} > {k - 50}:", f"for {self.fresh('k')} in range(1):", "try:"])
+        self.emit(inner)
+        self.emit(f"    {v.name} = {k} - {self.r.randint(0, 3)}")
+        if inner == "try:":
+            self.emit("except:")
+            self.emit("    pass")
+        self.emit('mon.write("first")')
+        self.ind -= 1
+        self.emit(f"if {v.name} > {k}:")
+        self.emit('    mon.write("second")')
+        self.observe(v)
+
+    def s_empty_arms_call(self, depth):
+        """A chain whose arms do nothing on the device (pass / host-only print) still evaluates its conditions - here a helper
+        with effects."""
+        f = self.r.choice([f for f in self.funcs if f.ret == "int" and not f.pure])
+        args = ", ".join(self.expr(t, 2) for t in f.params)
+        self.feat("empty-arms-effectful-condition")
+        self.emit(f"if {f.name}({args}) > {self.r.randint(-5, 5)}:")
+        self.emit("    " + self.r.choice(["pass", 'print("host only")']))
+        if self.chance(0.5):
+            self.emit("else:")
+            self.emit("    pass")
+        self.observe()
 
     def s_single_pass_for(self, depth):
         """A counted loop that runs exactly once (count written as a literal, a foldable expression or a name) inside another loop,
